@@ -17,6 +17,7 @@ import (
 	"time"
 
 	"github.com/specterops/dawgs/graph"
+	"github.com/specterops/dawgs/graphcache"
 	"github.com/specterops/dawgs/ops"
 	"github.com/specterops/dawgs/traversal"
 	"github.com/specterops/dawgs/util/channels"
@@ -86,7 +87,32 @@ func gen(r *rand.Rand) WL {
 	w.Mode = "bfs"
 	genGraph(r, &w)
 	w.Workers = 1 + r.IntN(4)
-	if r.IntN(3) == 0 {
+	if x := r.IntN(6); x == 0 {
+		// the repository's own shallow driver with its filters, collectors and graph cache
+		w.Driver = "lightweight"
+		w.Depth = r.IntN(3) // 0 unique-path filter, 1 acyclic-node filter, 2 filtered skip/limit
+		w.Cut = r.IntN(2) == 0
+		if w.Depth == 2 && r.IntN(3) > 0 {
+			// a bushy tree: the candidate set of the skip/limit filter is then schedule independent
+			w.Nodes = 3 + r.IntN(5)
+			w.Edges = nil
+			for i := 2; i <= w.Nodes; i++ {
+				p := 1 + r.IntN(i-1)
+				if i <= 3 {
+					p = 1 // the root has two children; the rest hangs below them, so workers meet at the counters
+				} else if r.IntN(2) == 0 {
+					p = 2 + r.IntN(2)
+				}
+				if w.Cut {
+					w.Edges = append(w.Edges, Edge{ID: 100 + i, From: p, To: i})
+				} else {
+					w.Edges = append(w.Edges, Edge{ID: 100 + i, From: i, To: p})
+				}
+			}
+			w.Root = 1
+			w.Workers = 2 + r.IntN(3)
+		}
+	} else if x <= 2 {
 		w.Driver = "pattern"
 		n := 1 + r.IntN(3)
 		for i := 0; i < n; i++ {
@@ -242,6 +268,44 @@ func patternDriver(w WL, rec *recorder, e *env) traversal.Driver {
 	}
 }
 
+// lightweightDriver wires traversal.LightweightDriver with one of the repository's segment filters.
+// The filters are stateful and shared by all workers (a thread-safe bitmap, atomic skip/limit
+// counters), so which segments are admitted depends on the schedule; what does not is checked:
+// the unique-path filter admits every edge at most once overall, skip/limit collect exactly
+// min(limit, max(0, candidates-skip)) segments when the candidate set is schedule independent.
+func lightweightDriver(w WL, rec *recorder, e *env, col *collectors) traversal.Driver {
+	dir := graph.DirectionOutbound
+	if !w.Cut {
+		dir = graph.DirectionInbound
+	}
+	var filter traversal.SegmentFilter
+	switch w.Depth {
+	case 0:
+		filter = traversal.UniquePathSegmentFilter(func(next *graph.PathSegment) bool { return next.Depth() < 4 })
+	case 1:
+		filter = traversal.AcyclicNodeFilter(func(next *graph.PathSegment) bool { return next.Depth() < 4 })
+	default:
+		skip, limit := 1, 2
+		filter = traversal.FilteredSkipLimit(func(next *graph.PathSegment) (bool, bool) {
+			return true, !next.IsCycle() && next.Depth() < 3
+		}, func(next *graph.PathSegment) { col.paths.Add(next.Path()) }, skip, limit)
+	}
+	inner := traversal.LightweightDriver(dir, col.cache, nil, filter, func(next *graph.PathSegment) { col.nodes.Collect(next) })
+	return func(ctx context.Context, tx graph.Transaction, seg *graph.PathSegment) ([]*graph.PathSegment, error) {
+		rec.visit(segKey(seg))
+		if e.arrive("driver_err") {
+			return nil, errInjected
+		}
+		return inner(ctx, tx, seg)
+	}
+}
+
+type collectors struct {
+	cache graphcache.Cache
+	nodes *traversal.NodeCollector
+	paths *traversal.PathCollector
+}
+
 func mkDriver(w WL, rec *recorder, e *env) traversal.Driver {
 	if w.Driver == "pattern" {
 		return patternDriver(w, rec, e)
@@ -307,6 +371,9 @@ func diffMultiset(got, want map[string]int, subsetOK bool) string {
 }
 
 func execBFS(t *testing.T, w WL, cfg simrt.Config) simh.Outcome {
+	if w.Driver == "lightweight" {
+		return execLightweight(t, w, cfg)
+	}
 	refV, refT, refErr := reference(w)
 	if refErr != nil {
 		return simh.Outcome{Class: "infra", Detail: "reference expansion failed: " + refErr.Error()}
@@ -656,3 +723,114 @@ func TestSim(t *testing.T) {
 			}
 		}})
 }
+
+// execLightweight: BreadthFirst with the repository's LightweightDriver, stateful shared filters,
+// collectors and the graph cache. Schedule-independent facts only.
+func execLightweight(t *testing.T, w WL, cfg simrt.Config) simh.Outcome {
+	var (
+		rec      = &recorder{}
+		retErr   error
+		returned bool
+		e        = &env{w: w, live: true}
+		col      = &collectors{cache: graphcache.New(), nodes: traversal.NewNodeCollector(), paths: traversal.NewPathCollector()}
+		counters = map[string]int{}
+	)
+	if w.Fault.Kind != "" && w.Fault.Kind != "driver_err" && w.Fault.Kind != "cancel" {
+		w.Fault = Fault{}
+	}
+	res := simrt.Run(t, cfg, func(s *simrt.Sim) {
+		e.sim = s
+		db := buildDB(w)
+		ctx, cancel := context.WithCancel(context.Background())
+		_ = cancel
+		switch w.Fault.Kind {
+		case "driver_err":
+			s.Plan("driver_err", w.Fault.K)
+		case "cancel":
+			s.OnStep = func(step int) {
+				if step == w.Fault.K {
+					s.NoteFault("cancel")
+					cancel()
+				}
+			}
+		}
+		drv := lightweightDriver(w, rec, e, col)
+		s.Spawn(func() {
+			retErr = traversal.New(db, w.Workers).BreadthFirst(ctx, traversal.Plan{Root: mkNode(w.Root), Driver: drv})
+			returned = true
+		})
+	})
+	o := simh.Outcome{Res: res, Counters: counters}
+	if res.Infra != "" || res.Panic != "" || res.Hang || res.Livelock || !returned {
+		return o
+	}
+	counters["lightweight_runs"]++
+	faulted := res.Faults["driver_err"] > 0 || res.Faults["cancel"] > 0
+	if res.Faults["driver_err"] > 0 && (retErr == nil || !errors.Is(retErr, errInjected)) {
+		o.Class, o.Detail = "oracle:first_error", fmt.Sprintf("an injected driver error fired but BreadthFirst returned %v", retErr)
+		return o
+	}
+	if !faulted && retErr != nil {
+		o.Class, o.Detail = "oracle:spurious_error", fmt.Sprintf("fault-free traversal returned %v", retErr)
+		return o
+	}
+	outbound := w.Cut
+	reach := reachable(w, outbound)
+	// every visited segment is a real path from the root; no segment is expanded twice
+	seen := map[string]int{}
+	for _, v := range rec.visits {
+		seen[v]++
+		if seen[v] > 1 {
+			o.Class, o.Detail = "oracle:visits", fmt.Sprintf("segment %q was handed to the driver twice", v)
+			return o
+		}
+	}
+	for id := range col.nodes.Nodes {
+		if !reach[int(id)] {
+			o.Class, o.Detail = "oracle:collector", fmt.Sprintf("node collector holds %d, which is not reachable from the root", id)
+			return o
+		}
+	}
+	switch w.Depth {
+	case 0:
+		// unique-path filter: each edge id admitted at most once over the whole traversal
+		used := map[string]bool{}
+		for _, v := range rec.visits {
+			if i := strings.LastIndex(v, ","); i >= 0 || strings.Contains(v, ":") {
+				last := v[strings.LastIndexAny(v, ":,")+1:]
+				if last == "" {
+					continue
+				}
+				if used[last] {
+					o.Class, o.Detail = "oracle:unique_edges", fmt.Sprintf("edge %s was admitted twice by the unique-path filter (visits %v)", last, rec.visits)
+					return o
+				}
+				used[last] = true
+			}
+		}
+	case 2:
+		if !faulted && treeShapedBFS(w, outbound) {
+			// candidates = every non-root segment within depth 3 of a tree: schedule independent
+			cands := 0
+			var walk func(n, d int)
+			walk = func(n, d int) {
+				for _, ed := range adj(w, n, outbound) {
+					cands++
+					if d+1 < 3 {
+						walk(ed.To, d+1)
+					}
+				}
+			}
+			walk(w.Root, 0)
+			want := min(2, max(0, cands-1))
+			if got := len(col.paths.Paths); got != want {
+				o.Class, o.Detail = "oracle:skip_limit", fmt.Sprintf("FilteredSkipLimit(skip=1, limit=2) collected %d paths out of %d candidates under %d workers; it must collect %d", got, cands, w.Workers, want)
+				return o
+			}
+			counters["lightweight_skip_limit_exact"]++
+		}
+	}
+	return o
+}
+
+func treeShapedBFS(w WL, outbound bool) bool { return treeShaped(w, outbound) }
